@@ -16,28 +16,28 @@ CLAIMED = {
         text="Proved for all inputs: gcd divides; _comb(n,k) == C(n,k) (Pascal-defined spec) with every int64 intermediate in range whenever C(n,k) < 2^53 (n < 2^62); both 100x12 tables; comb / comb_with_replacement; genotype_alleles_as_index == IDX (VCF order) for sorted tuples with < 2^53 genotypes; increment_genotype is the successor (IDX+1, sorted); index_as_genotype_alleles is a right inverse (index < 2^53, ploidy <= 255); IDX injective and IDX < cwr(n,P) iff max allele < n (bijection onto 0..N-1). Bounded: same functions and scipy-based count_unique_genotypes on a grid vs math.comb / explicit colex enumeration.",
         design_ref="DESIGN.md 4 (C11)", note=BASE_NOTE + "cwr(0,0)=0 is the code's documented quirk and part of the spec (claimed for >= 1 allele); side conditions n < 2^62, ploidy <= 255 for the inverse."),
     "C04": dict(category="proof", technique='contract-based deductive verification: sidecar contracts on the real functions, VCs generated from /repo source by pyvc (loop invariants, ghost lemmas, callee contracts), discharged by z3' + "; " + 'run-time contracts of the property evaluated on the real functions over enumerated / seeded bounded domains against oracles written from the property statement (bounded stand-in, never counted as proved)',
-        text="Proved for all inputs: log_likelihood == LLK (sum over reads of count x log(mean over haplotypes of product over SNVs), NaN -> factor 1); log_likelihood_structural_change == LLK of the rearranged genotype; jitutils.structural_change implements that rearrangement; calling.log_likelihood_alleles == LLK of the gathered haplotypes. Bounded: haplotype/read order invariance, count k == k copies, pedigree zero-count masking and cache wrapper on seeded tensors (gaps, exact 0/1 calls, zero-probability non-alleles).",
+        text="Proved for all inputs: log_likelihood == LLK (sum over reads of count x log(mean over haplotypes of product over SNVs), NaN -> factor 1); log_likelihood_structural_change == LLK of the rearranged genotype; jitutils.structural_change implements that rearrangement; calling.log_likelihood_alleles == LLKA. Proved for the spec function the code computes: invariance under any permutation of the haplotypes and of the reads (finite sums under a bijection, by induction), and a read of count c counts like the same read listed twice with counts c-k and k. Bounded: the same symmetries, pedigree zero-count masking and cache wrappers on seeded tensors.",
         design_ref="DESIGN.md 4 (C04)", note=BASE_NOTE + "Precondition: a zero read count never meets an impossible read (numpy 0*-inf)."),
     "C15": dict(category="proof", technique='contract-based deductive verification: sidecar contracts on the real functions, VCs generated from /repo source by pyvc (loop invariants, ghost lemmas, callee contracts), discharged by z3' + "; " + 'run-time contracts of the property evaluated on the real functions over enumerated / seeded bounded domains against oracles written from the property statement (bounded stand-in, never counted as proved)',
-        text="Proved for all ploidies / SNV counts: mutation.compound_step fills the (h,j) table without dtype narrowing, the shuffle is a bijection and the i-th base_step call receives (sigma(i) div N, sigma(i) mod N) in range, i.e. every (haplotype, SNV) pair exactly once. Bounded: sweep recorder up to 400 SNVs, random_breaks partitions (n <= 40, 130, 300), homozygosity screen vs independent single-SNV posterior, fixed-site re-insertion in DenovoMCMC._mcmc.",
+        text="Proved for all ploidies / SNV counts: mutation.compound_step visits every (haplotype, SNV) pair exactly once (table fill without dtype narrowing, shuffle bijection, call arguments); random_breaks returns contiguous non-empty intervals partitioning [0,n); structural.compound_step calls interval_step once per interval. Bounded: sweep recorder up to 400 SNVs, homozygosity screen vs independent single-SNV posterior, fixed-site re-insertion in DenovoMCMC._mcmc.",
         design_ref="DESIGN.md 4 (C15)", note=BASE_NOTE + "np.random.shuffle is a trusted bijection; random_breaks / _mcmc are not under U contract."),
     "C09": dict(category="other", technique='contract-based deductive verification: sidecar contracts on the real functions, VCs generated from /repo source by pyvc (loop invariants, ghost lemmas, callee contracts), discharged by z3' + " against ASSUMED arraymap get/set contracts; " + 'run-time contracts of the property evaluated on the real functions over enumerated / seeded bounded domains against oracles written from the property statement (bounded stand-in, never counted as proved)',
-        text="Proved (modulo the assumed arraymap interface): log_likelihood_cached and log_likelihood_structural_change_cached return the freshly computed likelihood with or without a cache and keep the cache coherent; base_step and mutation.compound_step carry llk == LLK(current genotype) and preserve coherence. Bounded: the assumed arraymap clauses on exhaustive operation sequences (growth, flush) vs a dict model; recorded llk == recomputed llk for assemble (all temperatures, cache on/off, identical trajectory), call (Gibbs/MH) and every entry of a caller-supplied pedigree cache (unequal distinct reads per sample).",
+        text="Proved (modulo the assumed arraymap and structural label/option contracts): assemble -- cached wrappers, base_step, interval_step, both compound_steps, chain_swap_step and _denovo_assembler: every likelihood recorded in the cold trace equals LLK of the recorded genotype for every move sequence, temperature ladder and cache state. call -- log_likelihood_alleles_cached over the numba dict (coherence via injectivity of the G-field index and permutation invariance of the likelihood), gibbs_options, mh_options, compound_step, mcmc_sampler: every recorded likelihood equals LLKA of the recorded sorted genotype. Bounded: the assumed arraymap clauses on exhaustive operation sequences (growth, flush) vs a dict model; recorded llk == recomputed llk for assemble, call and every entry of a caller-supplied pedigree cache; cache on/off same trajectory.",
         design_ref="DESIGN.md 4 (C09)", note=BASE_NOTE + "arraymap.get/set are assumed contracts (R-checked); POSREADS: all likelihoods the sampler can meet are finite."),
     "C01": dict(category="other", technique='run-time contracts of the property evaluated on the real functions over enumerated / seeded bounded domains against oracles written from the property statement (bounded stand-in, never counted as proved)' + "; " + 'contract-based deductive verification: sidecar contracts on the real functions, VCs generated from /repo source by pyvc (loop invariants, ghost lemmas, callee contracts), discharged by z3' + " for base_step and the prior closed forms",
-        text="Bounded, exhaustive: for all ordered genotypes of small instances (ploidy<=4, <=3 SNVs, bi/tri-allelic, gaps, counts) x inbreeding {0,.3} x inverse temperature {1,.6}: base_step and interval_step (recombination and dosage, 4 intervals) probability vectors captured from the real kernels satisfy detailed balance w.r.t. (lik x prior)^t over unordered genotypes and depend on the genotype only as a multiset; exchange acceptance formula and state swap; _denovo_assembler passes each chain its temperature and the same prior parameters to every move incl. the exchange. Proved: base_step's vector is a probability distribution, only cell (h,j) changes; assemble prior == (Dirichlet-)multinomial closed form.",
+        text="Bounded, exhaustive: for all ordered genotypes of small instances (ploidy<=4, <=3 SNVs, bi/tri-allelic, gaps, counts) x inbreeding {0,.3} x inverse temperature {1,.6}: base_step and interval_step probability vectors captured from the real kernels satisfy detailed balance w.r.t. (lik x prior)^t over unordered genotypes and depend on the genotype only as a multiset; exchange acceptance formula and state swap; orchestration arguments. Proved: base_step / interval_step vectors are probability distributions with the stated frames, chain_swap_acceptance formula and swap, _denovo_assembler keeps llks[t] == LLK(genotypes[t]) for every chain, assemble prior == (Dirichlet-)multinomial closed form.",
         design_ref="DESIGN.md 4 (C01)", note=BASE_NOTE + "Detailed balance per move => stationarity is mathematics outside the check (A6)."),
-    "C02": dict(category="other", technique='run-time contracts of the property evaluated on the real functions over enumerated / seeded bounded domains against oracles written from the property statement (bounded stand-in, never counted as proved)',
-        text="Bounded, exhaustive over all ordered genotype vectors x positions (ploidy<=4, haplotypes<=4, F {0,.2}, flat/skewed/zero frequencies): gibbs_options == exact full conditional of lik x exchangeable-sequence prior; mh_options is a distribution in detailed balance; random scan visits every copy once, sorts, returns the llk of the final state; likelihood cache transparent for odd ploidy and up to 70 haplotypes.",
+    "C02": dict(category="other", technique='contract-based deductive verification: sidecar contracts on the real functions, VCs generated from /repo source by pyvc (loop invariants, ghost lemmas, callee contracts), discharged by z3' + "; " + 'run-time contracts of the property evaluated on the real functions over enumerated / seeded bounded domains against oracles written from the property statement (bounded stand-in, never counted as proved)',
+        text="Proved for all inputs in the stated domain: gibbs_options gives allele a probability proportional to exp(LLKA(g[k:=a])) x the Polya-urn conditional of copy k ((alpha_a + copies among the others)/(sum alpha + P - 1); the frequency when F = 0), sums to one, restores the genotype; mh_options returns the closed-form Metropolis-Hastings vector (uniform proposal over the other alleles, acceptance min(1, posterior ratio x copies ratio)) summing to one; normalise_log_probs / sum_log_probs / add_log_prob; compound_step resamples every copy once. Bounded, exhaustive on small instances: Gibbs == exact full conditional of lik x joint prior, MH detailed balance, zero-frequency alleles, 70 haplotypes.",
         design_ref="DESIGN.md 4 (C02)", note=BASE_NOTE),
-    "C03": dict(category="other", technique='run-time contracts of the property evaluated on the real functions over enumerated / seeded bounded domains against oracles written from the property statement (bounded stand-in, never counted as proved)',
-        text="Bounded: streaming and full-array kernels and program.call_sample_genotypes (4 samples, mixed ploidy and inbreeding, 4 --report sets) equal the independently enumerated posterior: GT maximiser, GPM, SPM, AFP/ACP/AOP, GP in VCF order; 140-haplotype case (allele indices beyond int8).",
+    "C03": dict(category="other", technique='contract-based deductive verification: sidecar contracts on the real functions, VCs generated from /repo source by pyvc (loop invariants, ghost lemmas, callee contracts), discharged by z3' + "; " + 'run-time contracts of the property evaluated on the real functions over enumerated / seeded bounded domains against oracles written from the property statement (bounded stand-in, never counted as proved)',
+        text="Proved against a ghost table GT of all genotypes in VCF order (exists by C11; the contracts hold for every such table): genotype_posteriors[i] is proportional to exp(llk_i + prior(GT[i])) and sums to one; _genotype_likelihoods[i] == LLKA(GT[i]); posterior_allele_frequencies == (ACNT/ploidy, ACNT, AOCC) functionals; _call_posterior_mode returns a maximiser of likelihood x prior and the log normalising constant over all genotypes; _posterior_allele_frequencies (streaming path) computes the same functionals of exp(log joint - log denominator). Bounded: Python wrappers and program.call_sample_genotypes (4 samples, mixed ploidy, 4 --report sets, 140 haplotypes) equal the independently enumerated posterior.",
         design_ref="DESIGN.md 4 (C03)", note=BASE_NOTE + "float32 GL tolerance 2e-5; exact ties skipped."),
     "C05": dict(category="other", technique='contract-based deductive verification: sidecar contracts on the real functions, VCs generated from /repo source by pyvc (loop invariants, ghost lemmas, callee contracts), discharged by z3' + " for the assemble prior; " + 'run-time contracts of the property evaluated on the real functions over enumerated / seeded bounded domains against oracles written from the property statement (bounded stand-in, never counted as proved)',
-        text="Proved: ln_equivalent_permutations, log_genotype_null_prior, log_dirichlet_multinomial_pmf, assemble log_genotype_prior equal the lgamma closed forms with dispersion exp(log((1-F)/F) - log u). Bounded: call prior == perms x Polya-urn sequence probability and sums to one (ploidy up to 14, zero frequencies), single-allele conditional == exact conditional, assemble prior vs log-space Polya urn for every dosage partition, ploidy<=13(16), up to 2^150 haplotypes, assemble == call(flat).",
+        text="Proved: ln_equivalent_permutations, assemble null / Dirichlet-multinomial / genotype priors and the call genotype prior (flat and with frequencies) equal the lgamma closed forms; log_genotype_allele_prior equals the Polya-urn conditional; lemma: the assemble prior equals the call prior with flat frequencies over u haplotypes. Bounded: sums to one (ploidy up to 14, zero frequencies), conditional == exact conditional of the joint, every dosage partition, ploidy<=13(16), up to 2^150 haplotypes.",
         design_ref="DESIGN.md 4 (C05)", note=BASE_NOTE),
-    "C14": dict(category="exploration", technique='run-time contracts of the property evaluated on the real functions over enumerated / seeded bounded domains against oracles written from the property statement (bounded stand-in, never counted as proved)',
-        text="Seeded random traces (incl. 70-SNV loci, every burn-in, random within-genotype order): posterior, mode, mode support, allele frequencies / counts / occurrence, G-ordered array, chain incongruence of GenotypeMultiTrace / GenotypeAllelesMultiTrace and mset helpers equal a multiset oracle. Known finding F9 (MCI 1-vs-2 depends on chain order) is reported as KNOWN-FINDING.",
+    "C14": dict(category="exploration", technique='contract-based deductive verification: sidecar contracts on the real functions, VCs generated from /repo source by pyvc (loop invariants, ghost lemmas, callee contracts), discharged by z3' + "; " + 'run-time contracts of the property evaluated on the real functions over enumerated / seeded bounded domains against oracles written from the property statement (bounded stand-in, never counted as proved)',
+        text="Proved: _posterior_frequencies returns the empirical mean allele counts / frequencies / occurrence over all retained steps of all chains; posterior_as_array places each observed probability at the VCF position of its genotype. Bounded (seeded random traces incl. 70-SNV loci, every burn-in, random within-genotype order): posterior, mode, mode support, G-ordered array, chain incongruence of GenotypeMultiTrace / GenotypeAllelesMultiTrace and mset helpers equal a multiset oracle. Known finding F9 (MCI 1-vs-2 depends on chain order) is reported as KNOWN-FINDING.",
         design_ref="DESIGN.md 4, 5 (F9)", note=BASE_NOTE),
     "C17": dict(category="other", technique='run-time contracts of the property evaluated on the real functions over enumerated / seeded bounded domains against oracles written from the property statement (bounded stand-in, never counted as proved)',
         text="Bounded, exhaustive over parental genotypes on 3 alleles, ploidy 2/4(/6), balanced / unbalanced / clonal tau, known / unknown parents, lambda {0,.3}, error grids: exp(trio_log_pmf) equals a brute-force union-of-gametes model pointwise and sums to one; gamete_log_pmf sums to one; zero-error positivity iff trio_valid / duo_valid; PEDERR uses the right parent / tau column.",
